@@ -105,6 +105,11 @@ func contAfterString(s []byte, k int) bool {
 }
 
 func lexSQL(s []byte) ([]tok, bool) {
+	// a NUL anywhere — between tokens or inside one — is refused (Spec.SqlLex.next: the bytes a step consumes hold no NUL;
+	// a text is lexed entirely or not at all, so this is the same as refusing the whole text)
+	if bytes.IndexByte(s, 0) >= 0 {
+		return nil, false
+	}
 	var out []tok
 	i := 0
 	for i < len(s) {
